@@ -111,6 +111,23 @@ theorem C03_no_silent_omission (o : Oracle α) (ts : Table α) (req : List α) (
   | error e => exact Or.inl ⟨e, C03_error_runs_nothing o ts req fails e hp⟩
   | spin => exact absurd hp (plan_ne_spin o ts req)
 
+/-- **Kahn refines the emission relation, for every oracle.** On the graph `buildGraph` returns, whatever `dag.Sort`
+    returns is an emission sequence (`EmitSeq`: each vertex is new and all its parents were emitted before it) that
+    cannot be extended (`Stuck`: every vertex left over still waits for a parent that was never emitted); and the only
+    error `Sort` itself can report is the empty initial queue. -/
+theorem C03_kahn_refines_emit (o : Oracle α) (ts : Table α) (req : List α) (g : Graph α) (hc : closure ts req = .ok g) :
+    (∃ r, sort o g = .ok r ∧ EmitSeq g.verts g.edges r ∧ Stuck g.verts g.edges r) ∨
+    (sort o g = .error .cycle ∧ Stuck g.verts g.edges []) :=
+  sort_spec (wf_of_selected (closure_ok hc)) o
+
+/-- what `buildGraph` returns: the vertices are exactly the selected tasks (each once, all defined), the edges exactly
+    the declared dependencies between them; it fails exactly when a selected name is undefined -/
+theorem C03_closure (ts : Table α) (req : List α) :
+    (∀ g, closure ts req = .ok g →
+      g.verts.Nodup ∧ (∀ n, n ∈ g.verts ↔ Reach ts req n) ∧ (∀ p c, (p, c) ∈ g.edges ↔ c ∈ g.verts ∧ p ∈ deps ts c)) ∧
+    ((∃ e, closure ts req = .error e) ↔ ∃ n, Reach ts req n ∧ Undefined ts n) :=
+  ⟨fun _ hc => ⟨(closure_ok hc).vnodup, (closure_ok hc).verts_iff, (closure_ok hc).edges_iff⟩, closure_error_iff⟩
+
 /-- quantifying over oracles quantifies over exactly the iteration orders: `reorder` always yields a permutation of the
     collection, and every permutation is produced by some hint -/
 theorem C03_oracle_adequate (hint l : List α) : (reorder hint l).Perm l ∧ ∀ p : List α, p.Perm l → reorder p l = p :=
